@@ -157,6 +157,12 @@ pub trait BoundNo<C, T> {
     fn implements_as_ref(&self) -> bool {
         false
     }
+    fn as_ref_of<'x>(&self, _: &'x C) -> Option<&'x T> {
+        None
+    }
+    fn iter_shared_of<'x>(&self, _: &'x C) -> Option<Vec<&'x T>> {
+        None
+    }
 }
 impl<C, T> BoundNo<C, T> for Bound<C, T> {}
 impl<C: AsMut<T>, T> Bound<C, T> {
@@ -192,5 +198,18 @@ impl<C: FromIterator<T>, T> Bound<C, T> {
 impl<C: AsRef<T>, T> Bound<C, T> {
     pub fn implements_as_ref(&self) -> bool {
         true
+    }
+}
+impl<C: AsRef<T>, T> Bound<C, T> {
+    pub fn as_ref_of<'x>(&self, c: &'x C) -> Option<&'x T> {
+        Some(c.as_ref())
+    }
+}
+impl<C, T> Bound<C, T>
+where
+    for<'x> &'x C: IntoIterator<Item = &'x T>,
+{
+    pub fn iter_shared_of<'x>(&self, c: &'x C) -> Option<Vec<&'x T>> {
+        Some(c.into_iter().collect())
     }
 }
